@@ -9,7 +9,7 @@ pub fn run(tier: Tier) -> i32 {
     let mut rep = Report::new("C10", tier);
     rep.rule("M1 (handshake world, table-centred): every sequence up to depth D of {request(i), response(i, any issued challenge), genuine disconnect packet of i, genuine payload of i, server.disconnect(id), time-out tick (update 6 s + update_client for all), set_max_clients 1/2/3} for identities (id 1 @a0), (id 2 @a1), (second token for id 2 @a2), (id 3 token also @a0), servers built with max_clients 1 and 2; oracle in every state: connected ids pairwise distinct, addresses pairwise distinct, count <= limit unless lowered, clients_id() equals what the Connected/Disconnected events imply, client_addr / user_data / payload attribution refer to the session authenticated for that id, every ClientDisconnected names a connected id with its address, a denied handshake leaves the connected table untouched");
     rep.assume("identities send from fixed addresses; responses may echo any challenge issued to any identity");
-    let d = tier.pick(6, 8);
+    let d = tier.pick(7, 10);
     for (k, m) in [1usize, 2].into_iter().enumerate() {
         let w = HsWorld::new(c10_fix(m));
         let cfg = DfsCfg { depth: d, threads: explore::threads(), wall_cap_s: tier.pick(100.0, 1500.0), max_signatures: 8 };
